@@ -975,3 +975,20 @@ def departure_bookkeeping_atomic(ctx, prop, only=None):
 
 def elements_is_abstract(fn) -> bool:
     return _is_abstract(fn)
+
+
+def class_constants(ctx, prop, table):
+    """class-level constants the reference tables refer to symbolically: {(Class, NAME): canonical value}"""
+    rule = prop + '.S.constants'
+    for (cn, nm), want in table.items():
+        c = ctx.repo.find_class(cn)
+        r = c.lookup_attr(nm)
+        got = term(r[1]) if r is not None else None
+        ok = got == want
+        ctx.ob(rule, ok)
+        construct = '%s::%s.%s' % (c.module.relpath, cn, nm)
+        if ok:
+            ctx.sample(rule, construct, '%s.%s == %s' % (cn, nm, want))
+        else:
+            ctx.violation(rule, construct, '%s = %s' % (nm, got), '%s.%s is %s, the property requires %s' % (cn, nm, got, want),
+                          where='%s:%d' % (c.module.relpath, c.node.lineno))
